@@ -19,10 +19,12 @@
    queue.  The engine is abstract: theorems quantify over EVERY step function of the resolved
    machine, every history, every reachable table state, any number of models / contexts.
 
-   [guard] excludes exactly the one class of inputs on which /repo does not re-key a table: the
-   async classes with queued='model' (witness below = known finding KF-C15-3).  The former
-   KF-C15-1 (locked graph classes) and KF-C15-2 (unhashable models) are fixed in /repo (74ef53e,
-   3c0ca68); their witnesses are now positive examples. *)
+   [guard] no longer excludes any class: every table is re-keyed (context map: LockedMachine; graphs:
+   GraphMachine; per-model queues: AsyncMachine since 9fbcaa5).  It states an invariant of the original
+   (queued='model': every registered model has its queue), proved for all reachable machines in
+   C15_guard_reachable.  The former KF-C15-1/-2/-3 are fixed in /repo (74ef53e, 3c0ca68, 9fbcaa5); their
+   witnesses are positive examples now.  Candidate findings left: KF-C15-4, KF-C15-5 (IdentManager; fixed by
+   538f6a5: the harness reads the reset off /repo). *)
 From Coq Require Import List Arith Bool.
 From M Require Import Pickle.
 From P Require Import PickleP.
@@ -32,7 +34,7 @@ Import ListNotations.
    (a proof by computation over the finite class table; the harness re-derives the right-hand
    side from /repo by reflection on every run). *)
 Theorem C15_hooks_table :
-  map (fun k => hooks_code (effective_hooks k)) the12 = [0; 1; 0; 1; 2; 3; 2; 3; 0; 2; 0; 2].
+  map (fun k => hooks_code (effective_hooks k)) the12 = [0; 1; 0; 1; 2; 3; 2; 3; 4; 5; 4; 5].
 Proof. exact hooks_table. Qed.
 Print Assumptions C15_hooks_table.
 
@@ -258,16 +260,27 @@ Example C15_unhashable_pickles :
 Proof. exact ex_unhashable_pickles. Qed.
 Print Assumptions C15_unhashable_pickles.
 
-(* Outside the guard the statement is false of the faithful model (= of /repo):
-   KF-C15-3  AsyncMachine(queued='model'): no hook re-keys the per-model queue table; no model of the copy has a queue. *)
-Theorem C15_same_refuted_async_queue :
-  exists (w : world nat) (m : machine nat (nat * option nat)) rm rl w' m',
-    wf m = true /\ fresh rm rl w m = true /\ snapshot xrender rm rl w m = Some (w', m') /\
-    m_models m' = [110; 111] /\ m_qkeys m' = [10; 11] /\
-    map pm_queue (pv_models (resolve w m)) = [true; true] /\
-    map pm_queue (pv_models (resolve w' m')) = [false; false].
-Proof. exact ex_async_queue_stale. Qed.
-Print Assumptions C15_same_refuted_async_queue.
+(* Formerly KF-C15-3, fixed by 9fbcaa5: AsyncMachine(queued='model') stores the per-model queues with their models
+   and rebuilds the table under the new identities; the machine is inside the guard, every model of the copy has
+   its queue, and the copy resolves to the normalised original. *)
+Example C15_async_queue_rekeyed :
+  wf xasyncq = true /\ fresh (xplus 100) (xplus 100) xworld xasyncq = true /\ guard xasyncq = true /\
+  m_qkeys xasyncq = [10; 11] /\
+  exists w' m', snapshot xrender (xplus 100) (xplus 100) xworld xasyncq = Some (w', m') /\
+    m_models m' = [110; 111] /\ m_qkeys m' = [110; 111] /\
+    map pm_queue (pv_models (resolve w' m')) = [true; true] /\
+    resolve w' m' = normalize xrender (resolve xworld xasyncq).
+Proof. exact ex_async_queue_rekeyed. Qed.
+Print Assumptions C15_async_queue_rekeyed.
+
+(* What is left of the guard is an invariant of the ORIGINAL (with queued='model' every registered model has its
+   queue); it holds for every machine reachable by add_model / remove_model, for every class. *)
+Theorem C15_guard_reachable :
+  forall (C S G : Type) (render : C -> option S -> G) (w : world S) (k : cls) (c : C) (q : bool)
+         (mctx : list ident) (script : list tabop),
+  guard (fold_left (tab_step render w) script (init_machine k c q mctx : machine C G)) = true.
+Proof. exact guard_reachable. Qed.
+Print Assumptions C15_guard_reachable.
 
 (* KF-C15-4 (candidate)  a GraphMachine pickled through one of its models: the copy of that model has a
    graph in which no state is styled active, unlike the regenerated graph of the original. *)
